@@ -578,6 +578,9 @@ class Visitor:
             if "." in name:
                 continue
 
+            # What is forwarded from a previous definition only concerns this name, not the other targets.
+            name_labels, name_docstring, name_annotation = set(labels), docstring, annotation
+
             if name in parent.members:
                 # Assigning multiple times.
                 # TODO: Might be better to inspect.
@@ -586,24 +589,24 @@ class Visitor:
 
                 existing_member = parent.members[name]
                 with suppress(AliasResolutionError, CyclicAliasError):
-                    labels |= existing_member.labels
+                    name_labels |= existing_member.labels
                     # Forward previous docstring and annotation instead of erasing them.
-                    if existing_member.docstring and not docstring:
-                        docstring = existing_member.docstring
+                    if existing_member.docstring and not name_docstring:
+                        name_docstring = existing_member.docstring
                     with suppress(AttributeError):
-                        if existing_member.annotation and not annotation:  # type: ignore[union-attr]
-                            annotation = existing_member.annotation  # type: ignore[union-attr]
+                        if existing_member.annotation and not name_annotation:  # type: ignore[union-attr]
+                            name_annotation = existing_member.annotation  # type: ignore[union-attr]
 
             attribute = Attribute(
                 name=name,
                 value=value,
-                annotation=annotation,
+                annotation=name_annotation,
                 lineno=node.lineno,
                 endlineno=node.end_lineno,
-                docstring=docstring,
+                docstring=name_docstring,
                 runtime=not self.type_guarded,
             )
-            attribute.labels |= labels
+            attribute.labels |= name_labels
             parent.set_member(name, attribute)
 
             if name == "__all__":
